@@ -538,12 +538,17 @@ class Interp:
                             new.deg = res.deg
                         else:
                             new.deg = None if (res.deg or old.deg) else old.deg
+                        new.deg_alt = None
+                        if old.note == 'zeros' and res.deg is None and \
+                                res.deg_alt and old.deg in (None, {}):
+                            new.deg_alt = list(res.deg_alt)
                         zero = res.has_const() and \
                             isinstance(res.c, (int, float)) and res.c == 0
                         if zero or (res.lg is not None and res.lg == old.lg):
                             new.lg = old.lg
                     else:
                         new.deg = res.deg
+                        new.deg_alt = res.deg_alt
                         new.lg = res.lg
                     holder.items[idx.c] = new
 
@@ -1018,7 +1023,8 @@ class Interp:
             return INT()
         if arr.dt == 'b':
             return BOOL()
-        r = FLOAT(taint=arr.taint, lg=arr.lg, unit=arr.unit, deg=arr.deg,
+        r = FLOAT(taint=arr.taint, lg=arr.lg, unit=arr.unit,
+                  deg=arr.deg if arr.deg is not None else {},
                   cnt=arr.cnt)
         if isinstance(arr.src, tuple) and arr.src and arr.src[0] == 'cumsum':
             r.src = arr.src
@@ -1101,6 +1107,10 @@ class Interp:
                     nb.deg = v.deg
                 else:
                     nb.deg = None if (v.deg or base.deg) else base.deg
+                nb.deg_alt = None
+                if base.note == 'zeros' and v.deg is None and v.deg_alt and \
+                        base.deg in (None, {}):
+                    nb.deg_alt = list(v.deg_alt)
                 if base.items is not None:
                     its = None
                     if idx.k == 'int' and idx.has_const() and v.k == 'int' \
